@@ -458,13 +458,25 @@ func errCode(err error) string {
 	}
 	var me waddrmgr.ManagerError
 	if errors.As(err, &me) {
-		return me.ErrorCode.String()
+		return codeName(me.ErrorCode)
 	}
 	var pme *waddrmgr.ManagerError
 	if errors.As(err, &pme) {
-		return pme.ErrorCode.String()
+		return codeName(pme.ErrorCode)
 	}
 	return "other:" + err.Error()
+}
+
+// codeName names the error class (two codes have no entry in waddrmgr's
+// string table).
+func codeName(c waddrmgr.ErrorCode) string {
+	switch c {
+	case waddrmgr.ErrBirthdayBlockNotSet:
+		return "ErrBirthdayBlockNotSet"
+	case waddrmgr.ErrBlockNotFound:
+		return "ErrBlockNotFound"
+	}
+	return c.String()
 }
 
 func errAns(err error) answer { return answer{K: "err", Err: errCode(err)} }
@@ -717,7 +729,21 @@ type runner struct {
 	heights map[int32]bool
 	names   int // highest name id used so far
 	seenDiv map[string]bool
-	seq     int
+	// site of the first divergence per subject
+	subjSite map[string]string
+	seq      int
+}
+
+func subjectOf(q op) string {
+	switch q.K {
+	case "props", "last", "acctname":
+		return fmt.Sprintf("acct:%d", q.Acct)
+	case "lookup":
+		return fmt.Sprintf("addr:%v", q.Addr)
+	case "synced", "blockhash":
+		return "sync"
+	}
+	return q.K
 }
 
 func (rn *runner) freshCopy() (*inst, string, error) {
@@ -1058,6 +1084,11 @@ func siteOf(kind string, t *txIn) string {
 		if aborted {
 			return pick("SetSyncedTo")
 		}
+		// SetSyncedTo(nil) copies the in-memory start block, whose time
+		// stamp is not what the database holds
+		if has("setsyncednil") {
+			return "SetSyncedTo(nil)" + where
+		}
 	case "birthday":
 		if aborted {
 			return pick("SetBirthday")
@@ -1080,7 +1111,7 @@ func runHistory(e *env, in input) (*caseOut, error) {
 		return nil, err
 	}
 	defer func() { r.close(); os.Remove(path) }()
-	rn := &runner{e: e, w: w, r: r, heights: map[int32]bool{0: true}, names: 2, seenDiv: map[string]bool{}}
+	rn := &runner{e: e, w: w, r: r, heights: map[int32]bool{0: true}, names: 2, seenDiv: map[string]bool{}, subjSite: map[string]string{}}
 	out := &caseOut{In: in, Oracle: []string{}, Findings: []finding{}, Tags: []string{}}
 
 	// initial state, as the implementation reports it
@@ -1106,6 +1137,17 @@ func runHistory(e *env, in input) (*caseOut, error) {
 				rn.seenDiv[id] = true
 				kind := "mem_disk_divergence:" + k
 				site := siteOf(k, t)
+				// a later symptom on a subject (account, address, sync state)
+				// that already diverged at a named site is a consequence of
+				// that divergence, not a new one
+				subj := subjectOf(e.Q)
+				if strings.HasPrefix(site, "unexplained:") {
+					if s0, ok := rn.subjSite[subj]; ok {
+						site = s0
+					}
+				} else if _, ok := rn.subjSite[subj]; !ok {
+					rn.subjSite[subj] = site
+				}
 				tag := kind + "@" + site
 				dup := false
 				for _, o := range out.Oracle {
@@ -1214,6 +1256,9 @@ func txInK(t txIn) bool {
 				seen[[2]uint32{o.Acct, b}] = true
 			}
 			if o.K == "extend" && seen[[2]uint32{o.Acct, b}] {
+				return true
+			}
+			if o.K == "setsyncednil" {
 				return true
 			}
 		}
